@@ -145,7 +145,7 @@ def run(tier):
         if c10.KIND_TO_PROP.get(m["kind"]) == "C05":
             chk.violation({"kind": m["kind"], "type": m.get("type"), "query": m.get("query"), "what": m.get("what")}, m)
     # (b) program level
-    k = 5 if tier == "quick" else 8
+    k = 5 if tier == "quick" else 6
     n = 300 if tier == "quick" else 2500
     work = C.workdir("det")
     src = os.path.join(work, "in.ndjson")
@@ -153,7 +153,7 @@ def run(tier):
     # the suites' cases: iterator pipelines (c11), evaluation order incl. struct / tuple / array / call operands
     # with effects (c07), scopes, closures, modules and imports incl. files shared between programs (c06),
     # cells and aliases (c13); positive cases only
-    every = {"c11": 8, "c07": 2, "c06": 1, "c13": 8} if tier == "quick" else {"c11": 1, "c07": 1, "c06": 1, "c13": 1}
+    every = {"c11": 8, "c07": 2, "c06": 1, "c13": 8} if tier == "quick" else {"c11": 4, "c07": 1, "c06": 1, "c13": 4}
     cases = os.path.join(work, "cases.ndjson")
     with open(cases, "w") as f:
         f.write(open(src).read())
